@@ -51,6 +51,18 @@ def _letter_var(node):
     return None
 
 
+
+def _ctor_roles(m):
+    """constructor locals by role: the local finally stored into self.<attr>."""
+    r = {}
+    for st in m.node.body:
+        if isinstance(st, ast.Assign) and isinstance(st.targets[0], ast.Attribute) and \
+                isinstance(st.targets[0].value, ast.Name) and st.targets[0].value.id == 'self' \
+                and isinstance(st.value, ast.Name):
+            r[st.targets[0].attr] = st.value.id
+    return r
+
+
 def sm_names(ctx):
     ctx.rule('SM-NAMES', 'state-name producers and the parser agree (prefixes, separator, letter '
              'tables)')
@@ -171,10 +183,18 @@ def sm_names(ctx):
         ctx.need(unp is not None and len(unp) == len(tup) == 3,
                  'output_matrix does not unpack _scale_misal_data')
         holds = {u: apps.get(t) for u, t in zip(unp, tup)}     # local in output_matrix -> var
+        rdg = om.params[1] if len(om.params) > 1 else 'readings'
         stores = [n for n in ast.walk(om.node) if isinstance(n, ast.Assign) and
                   isinstance(n.targets[0], ast.Subscript) and
-                  norm_text(n.targets[0].value) == 'H' and
-                  isinstance(n.targets[0].slice, ast.Tuple) and 'readings' in norm_text(n.value)]
+                  isinstance(n.targets[0].value, ast.Name) and
+                  isinstance(n.targets[0].slice, ast.Tuple) and
+                  isinstance(n.value, ast.Subscript) and
+                  isinstance(n.value.value, ast.Name)]
+        # the reading may have been re-bound (readings = np.asarray(readings))
+        stores = [n for n in stores if n.value.value.id in
+                  {rdg} | {t.id for a in ast.walk(om.node) if isinstance(a, ast.Assign)
+                           for t in a.targets if isinstance(t, ast.Name) and
+                           rdg in norm_text(a.value)}]
         ctx.floor('SM-ROLE', len(stores), 2, 'output_matrix stores')
         for st in stores:
             idx = [norm_text(e) for e in st.targets[0].slice.elts if norm_text(e) != ':']
@@ -184,7 +204,8 @@ def sm_names(ctx):
                 sl = rd.slice.elts if isinstance(rd.slice, ast.Tuple) else [rd.slice]
                 rd_idx = [norm_text(e) for e in sl if norm_text(e) != ':'][0]
             okr = len(idx) == 2 and holds.get(idx[0]) == vars_[0] and \
-                holds.get(rd_idx) == vars_[1] and holds.get(idx[1]) == 'n_states'
+                holds.get(rd_idx) == vars_[1] and \
+                holds.get(idx[1]) == _ctor_roles(m).get('n_states', 'n_states')
             ctx.ob('SM-ROLE', okr, None, 'output_matrix: H[output axis, state] = reading[input '
                    'axis]', f=om, node=st,
                    why='output_matrix stores readings[%s] into H[%s]: row must be the output '
@@ -219,6 +240,9 @@ def sm_count(ctx):
              'final slices use the indexing counter')
     em = ctx.repo.klass('inertial_sensor.EstimationModel')
     m = em.methods['__init__']
+    roles = _ctor_roles(m)
+    L_states = roles.get('states', 'states')
+    C_states = roles.get('n_states', 'n_states')
     counters = set()
     for n in ast.walk(m.node):
         if isinstance(n, ast.AugAssign) and isinstance(n.target, ast.Name) and \
@@ -253,8 +277,8 @@ def sm_count(ctx):
             if isinstance(st, ast.Expr) and isinstance(st.value, ast.Call) and \
                     isinstance(st.value.func, ast.Attribute) and \
                     st.value.func.attr == 'append' and \
-                    norm_text(st.value.func.value) == 'states':
-                later = [j for j in incs.get('n_states', []) if j > i]
+                    norm_text(st.value.func.value) == L_states:
+                later = [j for j in incs.get(C_states, []) if j > i]
                 ctx.ob('SM-COUNT', len(later) == 1, None,
                        'states.append paired with one n_states += 1 in the same block', f=m,
                        node=st, why='a state name is appended without exactly one following '
@@ -291,9 +315,9 @@ def sm_count(ctx):
     # every state append site count == increments of n_states sites
     n_app = sum(1 for n in ast.walk(m.node) if isinstance(n, ast.Call) and
                 isinstance(n.func, ast.Attribute) and n.func.attr == 'append' and
-                norm_text(n.func.value) == 'states')
+                norm_text(n.func.value) == L_states)
     n_inc = sum(1 for n in ast.walk(m.node) if isinstance(n, ast.AugAssign) and
-                norm_text(n.target) == 'n_states')
+                norm_text(n.target) == C_states)
     ctx.ob('SM-COUNT', n_app == n_inc and n_app >= 2, None,
            '%d state appends, %d n_states increments' % (n_app, n_inc), f=m, key='app-inc',
            why='%d state names are appended but n_states is incremented at %d sites'
@@ -322,14 +346,36 @@ def sm_count(ctx):
                            f=m, node=st, key='slice-%s-%d' % (arr, ax),
                            why='%s axis %d is indexed by %s but not cut' % (arr, ax, want))
     ctx.floor('SM-COUNT', n_sl, 8, 'final slices')
-    for c in counters:
-        ok = any(isinstance(st, ast.Assign) and norm_text(st.targets[0]) == 'self.' + c and
-                 norm_text(st.value) == c for st in m.node.body)
-        ctx.ob('SM-COUNT', ok, None, 'self.%s = %s' % (c, c), f=m, key='attr-' + c,
-               why='attribute %s is not set from counter %s' % (c, c))
-    ok = any(isinstance(st, ast.Assign) and norm_text(st.targets[0]) == 'self.states' and
-             norm_text(st.value) == 'states' for st in m.node.body)
-    ctx.ob('SM-COUNT', ok, None, 'self.states = states', f=m, key='attr-states',
+    inv = {v: k for k, v in roles.items()}
+    for c in sorted(counters):
+        ok = inv.get(c) in ('n_states', 'n_noises', 'n_output_noises')
+        ctx.ob('SM-COUNT', ok, None, 'counter %s is published as self.%s' % (c, inv.get(c)), f=m,
+               key='attr-' + str(inv.get(c)),
+               why='counter %s is not stored into one of n_states / n_noises / n_output_noises'
+                   % c)
+    # each published counter indexes the arrays of its own kind
+    kinds = {'n_states': {'P': (0, 1), 'H': (1,), 'F': (0, 1), 'G': (0,)},
+             'n_noises': {'G': (1,), 'q': (0,)}, 'n_output_noises': {'J': (1,), 'v': (0,)}}
+    for attr, arrs in kinds.items():
+        c = roles.get(attr)
+        for aname, axes in arrs.items():
+            loc = roles.get(aname)
+            if loc is None or loc not in used:
+                continue
+            for ax in axes:
+                got = used[loc].get(ax)
+                if got is None:
+                    continue
+                ctx.ob('SM-COUNT', got == c, None, 'self.%s axis %d is indexed by the counter '
+                       'published as self.%s' % (aname, ax, attr), f=m,
+                       key='kind-%s-%d' % (aname, ax),
+                       why='array stored as self.%s is filled along axis %d with counter %s, but '
+                           'self.%s is %s' % (aname, ax, got, attr, c))
+    ok = roles.get('states') is not None and any(
+        isinstance(n, ast.Call) and isinstance(n.func, ast.Attribute) and
+        n.func.attr == 'append' and norm_text(n.func.value) == roles.get('states')
+        for n in ast.walk(m.node))
+    ctx.ob('SM-COUNT', ok, None, 'self.states is the constructed list', f=m, key='attr-states',
            why='state names attribute is not the constructed list')
 
 
@@ -452,18 +498,34 @@ def sm_sign(ctx):
            node=(sol[0] if sol else ci.node), key='correct', why=why)
     # constructor: H[axis, n_states] = 1
     init = em.methods['__init__']
+    Hl = _ctor_roles(init).get('H', 'H')
     hs = [st for st in ast.walk(init.node) if isinstance(st, ast.Assign) and
-          isinstance(st.targets[0], ast.Subscript) and norm_text(st.targets[0].value) == 'H' and
+          isinstance(st.targets[0], ast.Subscript) and norm_text(st.targets[0].value) == Hl and
           isinstance(st.value, ast.Constant)]
+    # the row index is the loop variable of the enclosing `for <axis> in range(3)`
+    def loop_var(st):
+        from ..flow import path_to
+        p_ = path_to(init.node.body, st) or []
+        for blk, i in reversed(p_):
+            if isinstance(blk[i], ast.For) and isinstance(blk[i].target, ast.Name):
+                return blk[i].target.id
+        return None
     ok = len(hs) >= 1 and all(st.value.value == 1 for st in hs) and all(
-        norm_text(st.targets[0].slice.elts[0]) == 'axis' for st in hs)
+        isinstance(st.targets[0].slice, ast.Tuple) and
+        norm_text(st.targets[0].slice.elts[0]) == loop_var(st) for st in hs)
     ctx.ob('SM-SIGN', ok, None, 'bias state enters the reading error with +1 on its own axis',
            f=init, node=(hs[0] if hs else init.node), key='H-bias',
            why='bias column of H is not +1 on the row of its own axis')
     ge = em.methods['get_estimates']
     t = [n for n in ast.walk(ge.node) if isinstance(n, ast.BinOp) and isinstance(n.op, ast.Sub)
          and 'self.transform' in norm_text(n.left)]
-    ok = len(t) == 1 and 'axis_out == axis_in' in norm_text(t[0].right)
+    ok = False
+    if len(t) == 1 and isinstance(t[0].left, ast.Subscript) and \
+            isinstance(t[0].left.slice, ast.Tuple) and len(t[0].left.slice.elts) == 2:
+        r_, c_ = [norm_text(e) for e in t[0].left.slice.elts]
+        rt = norm_text(t[0].right)
+        ok = ('%s == %s' % (r_, c_) in rt or '%s == %s' % (c_, r_) in rt) and \
+            rt.replace('(', '').startswith('1 if')
     ctx.ob('SM-SIGN', ok, None, 'reported scale/misalignment = transform - identity', f=ge,
            node=(t[0] if t else ge.node), key='get',
            why='get_estimates does not report transform - I')
